@@ -124,6 +124,13 @@ def _T():
     return t
 
 
+EXTRA_SEQS = [
+    [14, 15, 22, 14],           # unique_together set, cleared, SQL, set again
+    [14, 22, 15, 22, 14],
+    [17, 22, 14, 15, 22, 14],   # the same next to an index_together
+    [16, 22, 27, 22, 16],       # Meta.indexes replaced and restored
+    [10, 22, 11],               # field index dropped and re-created
+]
 N_FIELD_TEMPLATES = 14      # templates 0..13 only touch fields of model A
 TEMPLATES = _T()
 
@@ -183,6 +190,10 @@ def plan(tier, seed):
     for L in range(2, maxlen + 1):
         for seq in itertools.product(range(n), repeat=L):
             descs.append({'mode': 'enum', 'seq': list(seq)})
+    # a few longer hand-picked sequences (both tiers): a Meta value removed
+    # and restored behind a barrier, in one run
+    for seq in EXTRA_SEQS:
+        descs.append({'mode': 'enum', 'seq': list(seq)})
     if tier == 'thorough':
         # length 4 over the field-only alphabet of model A
         for seq in itertools.product(range(N_FIELD_TEMPLATES), repeat=4):
@@ -315,6 +326,7 @@ def case_evidence(case, obs):
         'has_type_change': any(k == 'change_field:type' for k in kinds),
         'reuses_name': reuse,
         'has_useless_initial': any(e.get('useless_initial') for e in edits),
+        'has_barrier': any(e['op'] == 'sql' for e in edits),
         'n_models_touched': len(set((e.get('model') or e.get('old'))
                                     for e in edits if e['op'] != 'sql')),
     }
@@ -355,10 +367,19 @@ def pipeline_items(obs):
         return items, stats
     if be is None and 'b_snap' in obs:
         stats['pipeline_compared'] = 1
-        for it in seqpaths.compare(obs['p_snap'], obs['p_sig'],
-                                   pipe_only(obs['b_snap']), obs['b_sig'],
-                                   'P_vs_B'):
-            items.append(it)
+        pvb = seqpaths.compare(obs['p_snap'], obs['p_sig'],
+                               pipe_only(obs['b_snap']), obs['b_sig'],
+                               'P_vs_B')
+        if pvb and not seqpaths.compare(
+                obs['p_snap'], obs['p_sig'], pipe_only(obs['a_snap']),
+                obs['a_sig'], 'P_vs_A'):
+            # the pipeline differs from the bare optimised run but agrees
+            # with the one-at-a-time run (its pending filter skipped
+            # mutations of a model that ends up unchanged): that is what
+            # the property asks for
+            stats['pipeline_right_where_batch_differs'] = 1
+            pvb = []
+        items += pvb
     else:
         stats['pipeline_compared_with_a'] = 1
         for it in seqpaths.compare(obs['p_snap'], obs['p_sig'],
